@@ -33,7 +33,7 @@ def keyFields (k : Key) : List (String × V) :=
 def ctx (u : Uni) (funcs : String → List V → Option (V × Str)) : Ctx where
   u := u
   consts := keyConstEnv
-  maps := [("specialsKeys", (.int 0, specialsKeys.map fun e => ([e.1.1, e.1.2], V.int e.2)))]
+  maps := [("specialsKeys", .ints (specialsKeys.map fun e => ([e.1.1, e.1.2], e.2)))]
   slices := [("keyNames", keyNames.map fun e => V.struct [("key", .int e.1), ("name", .str e.2)])]
   structs := [("Key", keyStruct), ("specialKey", [("keycode", .int 0), ("final", .int 0)])]
   funcs := funcs
